@@ -18,6 +18,12 @@ class PyRaise(Exception):
         self.name = name
 
 
+class ExcValue(object):
+    """an exception object of the analysed package as a value (built by a helper, raised later)"""
+    def __init__(self, name, mro, obj):
+        self.name, self.mro, self.obj = name, mro, obj
+
+
 class Obj(dict):
     """a record standing for an object of the analysed program: attribute name -> value (handed to the evaluator by a rule)"""
 
@@ -160,14 +166,37 @@ def ev(node, env):
         if g is not None:
             params = [a.arg for a in g.args.args]
             args = [ev(a, env) for a in node.args]
-            if len(args) != len(params):
-                raise Unsupported('arity of %s' % node.func.id)
+            kw_ = {k.arg: ev(k.value, env) for k in node.keywords if k.arg}
             genv = dict(zip(params, args))
+            genv.update(kw_)
+            defaults_ = g.args.defaults
+            for prm_, d_ in zip(params[len(params) - len(defaults_):], defaults_) if defaults_ else ():
+                if prm_ not in genv:
+                    genv[prm_] = ev(d_, {})
+            if len(args) > len(params) or any(p_ not in genv for p_ in params):
+                raise Unsupported('arity of %s' % node.func.id)
             genv['__funcs__'] = env['__funcs__']
             if getattr(g, '_mod', None) is not None:
                 genv['__mod__'] = g._mod
             r, _ = run_function(g, genv)
             return r
+    if isinstance(node, ast.Call) and isinstance(node.func, (ast.Name, ast.Attribute)) and env.get('__mod__') is not None:
+        # construction of an exception object of the analysed package: a record of the constructor arguments with the class's MRO
+        try:
+            owner_ = env['__mod__'].resolve(node.func)
+        except Exception:
+            owner_ = None
+        if owner_ is not None and hasattr(owner_, 'mro') and any(k.name.endswith(('Error', 'Exception')) for k in owner_.mro()):
+            init_ = owner_.find_method('__init__')
+            obj_ = Obj()
+            if init_ is not None:
+                ps_ = [a.arg for a in init_[1].args.args][1:]
+                for pn_, a_ in list(zip(ps_, node.args)) + [(k_.arg, k_.value) for k_ in node.keywords if k_.arg]:
+                    try:
+                        obj_[pn_] = ev(a_, env)
+                    except (Unsupported, KeyError, TypeError):
+                        obj_[pn_] = UNKNOWN          # a message text and the like: not needed to follow the control flow
+            return ExcValue(owner_.name, [k.name for k in owner_.mro()], obj_)
     if isinstance(node, ast.Call) and env.get('__stubs__') and ast.unparse(node.func) in env['__stubs__'] and not node.keywords:
         # an operation of the environment the extracted code runs in (e.g. the next octet of a given octet string), supplied by the rule
         return env['__stubs__'][ast.unparse(node.func)](*[ev(a, env) for a in node.args])
@@ -365,10 +394,13 @@ class Ret(Exception):
 
 
 class Raised(Exception):
-    """the evaluated function raises; .name is the class named in the raise statement (or the built-in exception), '' when unknown"""
-    def __init__(self, name=''):
+    """the evaluated function raises; .name is the class named in the raise statement (or the built-in exception), '' when unknown; .mro the names of
+    that class and its bases when it is a class of the analysed package; .obj a record of the constructor arguments by parameter name (e.offset, ...)"""
+    def __init__(self, name='', mro=None, obj=None):
         Exception.__init__(self, name)
         self.name = name
+        self.mro = mro or [name]
+        self.obj = obj
 
 
 class _Unknown(object):
@@ -424,7 +456,41 @@ def run_function(f, env, max_steps=10000, skip_calls=False, tolerant=False):
                 raise Ret(ev(s.value, env) if s.value is not None else None)
             elif isinstance(s, ast.Raise):
                 exc = s.exc.func if isinstance(s.exc, ast.Call) else s.exc
-                raise Raised(ast.unparse(exc).split('.')[-1] if exc is not None else '')
+                if isinstance(s.exc, ast.Name) and isinstance(env.get('__caught__' + s.exc.id), (Raised, PyRaise)):
+                    raise env['__caught__' + s.exc.id]           # `raise e` of a caught exception
+                if s.exc is None and any(isinstance(k, str) and k.startswith('__caught__') for k in env):
+                    raise [v for k, v in env.items() if isinstance(k, str) and k.startswith('__caught__')][-1]
+                if s.exc is not None:
+                    # `raise helper(..)` / `raise error`: the value may be an exception object built elsewhere
+                    try:
+                        val_ = ev(s.exc, env)
+                    except (Unsupported, KeyError, TypeError):
+                        val_ = None
+                    if isinstance(val_, ExcValue):
+                        raise Raised(val_.name, val_.mro, val_.obj)
+                name_ = ast.unparse(exc).split('.')[-1] if exc is not None else ''
+                mro_, obj_ = None, None
+                if exc is not None and env.get('__mod__') is not None and isinstance(exc, (ast.Name, ast.Attribute)):
+                    try:
+                        owner = env['__mod__'].resolve(exc)
+                    except Exception:
+                        owner = None
+                    if owner is not None and hasattr(owner, 'mro'):
+                        mro_ = [k.name for k in owner.mro()]
+                        if isinstance(s.exc, ast.Call):
+                            init_ = owner.find_method('__init__')
+                            if init_ is not None:
+                                ps_ = [a.arg for a in init_[1].args.args][1:]
+                                obj_ = Obj()
+                                try:
+                                    for pn_, a_ in zip(ps_, s.exc.args):
+                                        obj_[pn_] = ev(a_, env)
+                                    for k_ in s.exc.keywords:
+                                        if k_.arg:
+                                            obj_[k_.arg] = ev(k_.value, env)
+                                except (Unsupported, KeyError, TypeError):
+                                    obj_ = None
+                raise Raised(name_, mro_, obj_)
             elif isinstance(s, ast.If):
                 try:
                     tv = ev(s.test, env)
@@ -502,7 +568,8 @@ def run_function(f, env, max_steps=10000, skip_calls=False, tolerant=False):
                         block(s.body)
                     finally:
                         env['__try__'] = depth_
-                except PyRaise as e:
+                except (PyRaise, Raised) as e:
+                    e_names = [e.name] if isinstance(e, PyRaise) else list(e.mro)
                     for h in s.handlers:
                         names_ = []
                         if h.type is None:
@@ -511,9 +578,12 @@ def run_function(f, env, max_steps=10000, skip_calls=False, tolerant=False):
                             names_ = [h.type.id]
                         elif isinstance(h.type, ast.Tuple):
                             names_ = [x.id for x in h.type.elts if isinstance(x, ast.Name)]
-                        if e.name in names_ or 'Exception' in names_ or (e.name in ('IndexError', 'KeyError') and 'LookupError' in names_):
+                        if h.type is None:
+                            names_ = e_names
+                        if any(n_ in names_ for n_ in e_names) or 'Exception' in names_ or (e.name in ('IndexError', 'KeyError') and 'LookupError' in names_):
                             if h.name:
-                                env[h.name] = UNKNOWN
+                                env[h.name] = e.obj if isinstance(e, Raised) and e.obj is not None else UNKNOWN
+                                env['__caught__' + h.name] = e
                             block(h.body)
                             break
                     else:
